@@ -56,6 +56,7 @@ Fails(c, s) ==
     [] c.kind = "csatdeep" -> C05DeepSatFails(c)
     [] c.kind = "csat"    -> C05SatFails(c)
     [] c.kind = "miter"   -> C13Fails(c)
+    [] c.kind = "miterdeep" -> C13DeepFails(c)
     [] c.kind = "pass"    -> IF c.prop = "C03" THEN C03Fails(c) ELSE C18Fails(c)
     [] c.kind = "transformdeep" -> DeepTransformFails(c)
     [] c.kind = "trav"    -> C20TravFails(c)
